@@ -4,23 +4,55 @@
 (* backup + Database.store listeners + HDF append export) with process     *)
 (* death during a discipline execution and restart with load=True.         *)
 (*                                                                         *)
-(* The driver is an unconstrained environment: it may ask any output at    *)
-(* any point in any order.  Answering a request at a point where the       *)
-(* output is missing may need discipline executions (ExecStart/ExecEnd);   *)
-(* a crash can only happen while a discipline executes.  A completed       *)
-(* evaluation is stored (Store) and the database notifies, in this order   *)
-(* and before any other discipline execution: the store listeners (export  *)
-(* when the backup is "at each function call"), then - if this was the     *)
-(* first non-empty store at that point - the new-iteration listeners       *)
-(* (export when the backup is "at each iteration").  The export itself is  *)
-(* "file := database" (HDFStore.tla shows append export = full export).    *)
+(* Layer 1 (Spec): the driver is an unconstrained environment: it may ask  *)
+(* any output at any point in any order.  Answering a request at a point   *)
+(* where the output is missing may need discipline executions              *)
+(* (ExecStart/ExecEnd); a crash can only happen while a discipline         *)
+(* executes.  A completed evaluation is stored (Store) and the database    *)
+(* notifies, in this order and before any other discipline execution: the  *)
+(* store listeners (export when the backup is "at each function call"),    *)
+(* then - if this was the first non-empty store at that point - the        *)
+(* new-iteration listeners (export when the backup is "at each             *)
+(* iteration", then the driver's callback: evaluation counter + 1).  The   *)
+(* export itself is "file := database" (HDFStore.tla shows append export = *)
+(* full export).  A restart loads the file and sets the evaluation counter *)
+(* under one of the two counter policies of the drivers                    *)
+(* (reset_iteration_counters): "reset" (default: the counter restarts from *)
+(* 0 whatever was loaded) or "kept" (the counter is the number of loaded   *)
+(* entries).                                                               *)
+(*                                                                         *)
+(* Layer 2 (RunSpec): a DETERMINISTIC algorithm whose stored values are    *)
+(* replayed exactly: its requests are a fixed plan of points, whatever the *)
+(* process that serves them.  Every run ends for one of three causes:      *)
+(*   "budget": a value is requested at a point without database entry      *)
+(*             while counter >= maxIter (ProblemFunction);                 *)
+(*   "tol":    GEMSEO's ftol/xtol testers, called by the driver's          *)
+(*             new-iteration callback, fire: they are a function of the    *)
+(*             last NLast entries of the DATABASE (loaded or not);         *)
+(*   "algo":   the algorithm's own convergence (the plan is exhausted).    *)
+(* A behaviour is: the uninterrupted run (phase "ref", its final history   *)
+(* and cause are remembered), then the same scenario from scratch with     *)
+(* crashes at every discipline execution and restarts under either counter *)
+(* policy (phase "crashy").  SameHistory is a theorem for every cause x    *)
+(* policy except budget x reset (a fresh budget: the reference history is  *)
+(* then a prefix).  TesterGuard = "counter" is the model of testers that   *)
+(* are skipped while the evaluation COUNTER is below NLast: TLC refutes    *)
+(* SameHistory for it (tolerance-stopped run, late crash point, reset);    *)
+(* TesterGuard = "new" (testers that wait for NLast entries of the current *)
+(* process) is refuted under both policies.                                *)
 (***************************************************************************)
 EXTENDS Naturals, Sequences, FiniteSets, TLC
 CONSTANTS Points,      \* design points (small integers)
-          Outs,        \* output names, Jacobians included (small integers)
+          Outs,        \* output names, Jacobians included (small integers); the least one is the objective
           EachCall, EachIter,
           MaxStores,   \* bound on the run length
-          MaxCrashes
+          MaxCrashes,
+          Policies,    \* counter policies a restart may use: subset of {"reset", "kept"}
+          NLast,       \* stop_crit_n_x: number of last database entries the tolerance testers look at
+          PlanLen,     \* RunSpec: the algorithm requests at most PlanLen points
+          MaxIters,    \* RunSpec: the budgets explored (0 = none)
+          TesterGuard  \* "database" (the specification); refuted (see above): "counter", and "new" (testers
+                       \* that wait for NLast entries added by the current process)
 VARIABLES db,        \* memory: sequence of [pt, outs]; lost at a crash
           file,      \* persistent: sequence of [pt, outs]
           stores,    \* ghost: completed stores <<pt, set of outputs>> of the history (never lost)
@@ -28,53 +60,170 @@ VARIABLES db,        \* memory: sequence of [pt, outs]; lost at a crash
           crashed, nCrash,
           loaded,    \* ghost: database loaded at the last restart
           req,       \* constant after Init: the outputs the run needs at each point
-          reworked   \* ghost: a discipline was executed at a point whose needed outputs are all stored
-vars == <<db, file, stores, executing, crashed, nCrash, loaded, req, reworked>>
+          reworked,  \* ghost: a discipline was executed at a point whose needed outputs are all stored
+          counter,   \* the problem's evaluation counter (memory: lost at a crash)
+          policy,    \* "fresh" (no restart yet) or the counter policy of the last restart
+          wasReset   \* ghost: some restart of this history used the "reset" policy
+bvars == <<db, file, stores, executing, crashed, nCrash, loaded, req, reworked, counter, policy, wasReset>>
+VARIABLES plan,      \* the points the deterministic algorithm requests, in order (revisits allowed)
+          near,      \* the tolerance testers fire iff the last NLast entries are all at points of this set
+          maxIter,   \* the budget (0: none)
+          pos, sub,  \* next request: output sub at point plan[pos]
+          ran,       \* the point the disciplines of THIS process were last executed at (0: none)
+          cause,     \* "running", or why the current run ended: "budget", "tol", "algo"
+          ended,     \* the scenario's execute returned (catch-up export done)
+          phase,     \* "ref", "crashy"; "free" in the unconstrained layer
+          refdb, refcause   \* final history and termination cause of the uninterrupted run
+rvars == <<plan, near, maxIter, pos, sub, ran, cause, ended, phase, refdb, refcause>>
+vars == <<bvars, rvars>>
 
 Has(d, p) == \E i \in 1..Len(d) : d[i].pt = p
 OutsAt(d, p) == IF Has(d, p) THEN d[CHOOSE i \in 1..Len(d) : d[i].pt = p].outs ELSE {}
 Put(d, p, O) == IF Has(d, p)
                 THEN [i \in 1..Len(d) |-> IF d[i].pt = p THEN [d[i] EXCEPT !.outs = @ \cup O] ELSE d[i]]
                 ELSE Append(d, [pt |-> p, outs |-> O])
+NonEmpty(d) == Cardinality({i \in 1..Len(d) : d[i].outs # {}})
 
-Init == /\ db = <<>> /\ file = <<>> /\ stores = <<>> /\ executing = 0
-        /\ crashed = FALSE /\ nCrash = 0 /\ loaded = <<>> /\ reworked = FALSE
-        /\ req = [p \in Points |-> Outs]
+BInit == /\ db = <<>> /\ file = <<>> /\ stores = <<>> /\ executing = 0
+         /\ crashed = FALSE /\ nCrash = 0 /\ loaded = <<>> /\ reworked = FALSE
+         /\ req = [p \in Points |-> Outs]
+         /\ counter = 0 /\ policy = "fresh" /\ wasReset = FALSE
+\* the run layer is idle in the unconstrained layer
+RIdle == /\ plan = <<>> /\ near = {} /\ maxIter = 0 /\ pos = 0 /\ sub = 0 /\ ran = 0
+         /\ cause = "free" /\ ended = FALSE /\ phase = "free" /\ refdb = <<>> /\ refcause = "free"
+Init == BInit /\ RIdle
 
 \* a discipline starts executing for point p: only useful when some output is missing at p
 ExecStart(p) == /\ ~crashed /\ executing = 0
                 /\ executing' = p
                 /\ reworked' = (reworked \/ (req[p] # {} /\ req[p] \subseteq OutsAt(db, p)))
-                /\ UNCHANGED <<db, file, stores, crashed, nCrash, loaded, req>>
+                /\ UNCHANGED <<db, file, stores, crashed, nCrash, loaded, req, counter, policy, wasReset>>
 ExecEnd == /\ ~crashed /\ executing # 0 /\ executing' = 0
-           /\ UNCHANGED <<db, file, stores, crashed, nCrash, loaded, req, reworked>>
+           /\ UNCHANGED <<db, file, stores, crashed, nCrash, loaded, req, reworked, counter, policy, wasReset>>
 \* the values of the outputs O at p are stored by one database.store call (O = {} : an empty
 \* entry, e.g. the pre-seeding of a parallel DOE); listeners fire; no discipline runs in between
+NewIter(p, O) == OutsAt(db, p) = {} /\ O # {}
 Store(p, O) ==
   /\ ~crashed /\ executing = 0 /\ Len(stores) < MaxStores
   /\ (EachCall \/ EachIter)
   /\ O \cap OutsAt(db, p) = {}
-  /\ LET newIter == OutsAt(db, p) = {} /\ O # {}
-         db2 == Put(db, p, O)
+  /\ LET db2 == Put(db, p, O)
      IN /\ db' = db2
-        /\ file' = (IF EachCall \/ (EachIter /\ newIter) THEN db2 ELSE file)
+        /\ file' = (IF EachCall \/ (EachIter /\ NewIter(p, O)) THEN db2 ELSE file)
   /\ stores' = Append(stores, <<p, O>>)
-  /\ UNCHANGED <<executing, crashed, nCrash, loaded, req, reworked>>
+  /\ counter' = (IF NewIter(p, O) THEN counter + 1 ELSE counter)
+  /\ UNCHANGED <<executing, crashed, nCrash, loaded, req, reworked, policy, wasReset>>
 Crash == /\ ~crashed /\ executing # 0 /\ nCrash < MaxCrashes
-         /\ crashed' = TRUE /\ nCrash' = nCrash + 1 /\ db' = <<>> /\ executing' = 0
-         /\ UNCHANGED <<file, stores, loaded, req, reworked>>
+         /\ crashed' = TRUE /\ nCrash' = nCrash + 1 /\ db' = <<>> /\ executing' = 0 /\ counter' = 0
+         /\ UNCHANGED <<file, stores, loaded, req, reworked, policy, wasReset>>
 \* a canonical store sequence that rebuilds a database (entries in order, outputs by increasing id)
 Canon(d) == [i \in 1..Len(d) |-> <<d[i].pt, d[i].outs>>]
+\* what load=True followed by execute leaves in the evaluation counter: the number of loaded entries
+\* (set_optimization_history_backup), then reset or not by the driver (_init_iter_observer)
+CounterAfterLoad(pol, d) == IF pol = "kept" THEN Len(d) ELSE 0
 \* restart with load=True: the database is the file, nothing else survives; the history that
 \* matters from now on is the one the file records (what was stored after the last export is lost)
-Restart == /\ crashed /\ crashed' = FALSE /\ db' = file /\ loaded' = file
-           /\ stores' = Canon(file)
-           /\ UNCHANGED <<file, executing, nCrash, req, reworked>>
-Next == \/ \E p \in Points : ExecStart(p)
-        \/ ExecEnd
-        \/ \E p \in Points, O \in SUBSET Outs : Store(p, O)
-        \/ Crash \/ Restart
+Restart(pol) == /\ crashed /\ pol \in Policies
+                /\ crashed' = FALSE /\ db' = file /\ loaded' = file
+                /\ stores' = Canon(file)
+                /\ counter' = CounterAfterLoad(pol, file)
+                /\ policy' = pol /\ wasReset' = (wasReset \/ pol = "reset")
+                /\ UNCHANGED <<file, executing, nCrash, req, reworked>>
+\* layer 1: the base actions under an unconstrained driver (the run layer stays idle)
+FreeExecStart(p) == ExecStart(p) /\ UNCHANGED rvars
+FreeExecEnd == ExecEnd /\ UNCHANGED rvars
+FreeStore(p, O) == Store(p, O) /\ UNCHANGED rvars
+FreeCrash == Crash /\ UNCHANGED rvars
+FreeRestart(pol) == Restart(pol) /\ UNCHANGED rvars
+Next == \/ \E p \in Points : FreeExecStart(p)
+        \/ FreeExecEnd
+        \/ \E p \in Points, O \in SUBSET Outs : FreeStore(p, O)
+        \/ FreeCrash
+        \/ \E pol \in Policies : FreeRestart(pol)
 Spec == Init /\ [][Next]_vars
+
+\* ------------------------------------------------ layer 2: deterministic runs
+Obj == CHOOSE o \in Outs : \A q \in Outs : o <= q
+NextOut(o) == IF \E q \in Outs : q > o
+              THEN CHOOSE q \in Outs : q > o /\ \A r \in Outs : r > o => q <= r
+              ELSE 0
+\* GEMSEO's tolerance testers (ObjectiveToleranceTester / DesignToleranceTester): a function of the
+\* last NLast entries of the database, whoever put them there
+TolFires(d, c) == /\ Len(d) >= NLast
+                  /\ \A i \in (Len(d) - NLast + 1)..Len(d) : d[i].pt \in near /\ Obj \in d[i].outs
+                  /\ (TesterGuard = "counter" => c >= NLast)
+                  /\ (TesterGuard = "new" => Len(d) - Len(loaded) >= NLast)
+RECURSIVE SeqsUpTo(_)
+SeqsUpTo(n) == IF n = 0 THEN {<<>>}
+               ELSE LET S == SeqsUpTo(n - 1)
+                    IN S \cup {Append(s, p) : s \in {t \in S : Len(t) = n - 1}, p \in Points}
+RInit == /\ BInit
+         /\ plan \in (SeqsUpTo(PlanLen) \ {<<>>}) /\ near \in SUBSET Points /\ maxIter \in MaxIters
+         /\ pos = 1 /\ sub = Obj /\ ran = 0 /\ cause = "running" /\ ended = FALSE
+         /\ phase = "ref" /\ refdb = <<>> /\ refcause = "none"
+
+Running == ~crashed /\ cause = "running" /\ executing = 0 /\ pos \in 1..Len(plan)
+P == plan[pos]
+Missing == sub \notin OutsAt(db, P)
+\* ProblemFunction: the budget is tested when a value is missing at a point WITHOUT database entry
+BudgetHit == OutsAt(db, P) = {} /\ maxIter > 0 /\ counter >= maxIter
+\* the algorithm got the value it asked for and goes on (or has converged: plan exhausted)
+Advance == IF NextOut(sub) # 0 THEN sub' = NextOut(sub) /\ pos' = pos /\ cause' = cause
+           ELSE IF pos < Len(plan) THEN sub' = Obj /\ pos' = pos + 1 /\ cause' = cause
+           ELSE sub' = sub /\ pos' = pos /\ cause' = "algo"
+\* the value is in the database (computed by this process or loaded): no event at all
+RServe == /\ Running /\ ~Missing /\ Advance
+          /\ UNCHANGED <<bvars, plan, near, maxIter, ran, ended, phase, refdb, refcause>>
+RBudget == /\ Running /\ Missing /\ BudgetHit /\ cause' = "budget"
+           /\ UNCHANGED <<bvars, plan, near, maxIter, pos, sub, ran, ended, phase, refdb, refcause>>
+\* the disciplines of this process have not run at P: they do (a crash is possible), once per point
+RExecStart == /\ Running /\ Missing /\ ~BudgetHit /\ ran # P /\ ExecStart(P)
+              /\ UNCHANGED rvars
+RExecEnd == /\ executing # 0 /\ ran' = executing /\ ExecEnd
+            /\ UNCHANGED <<plan, near, maxIter, pos, sub, cause, ended, phase, refdb, refcause>>
+\* the value is stored; at a new iteration the driver's callback counts it and calls the testers
+RStore == /\ Running /\ Missing /\ ~BudgetHit /\ ran = P /\ Store(P, {sub})
+          /\ (IF NewIter(P, {sub}) /\ TolFires(db', counter')
+              THEN cause' = "tol" /\ UNCHANGED <<pos, sub>>
+              ELSE Advance)
+          /\ UNCHANGED <<plan, near, maxIter, ran, ended, phase, refdb, refcause>>
+\* BaseScenario.execute: catch-up export when the run started from a non-empty database and added entries
+RFinish == /\ ~crashed /\ cause \in {"budget", "tol", "algo"} /\ ~ended /\ ended' = TRUE
+           /\ file' = (IF (EachCall \/ EachIter) /\ 0 < Len(loaded) /\ Len(loaded) < Len(db) THEN db ELSE file)
+           /\ UNCHANGED <<db, stores, executing, crashed, nCrash, loaded, req, reworked, counter, policy, wasReset,
+                          plan, near, maxIter, pos, sub, ran, cause, phase, refdb, refcause>>
+\* the uninterrupted run is over: remember it, start the same scenario from scratch, now with crashes
+StartOver == /\ phase = "ref" /\ ended /\ phase' = "crashy" /\ refdb' = db /\ refcause' = cause
+             /\ db' = <<>> /\ file' = <<>> /\ stores' = <<>> /\ counter' = 0
+             /\ pos' = 1 /\ sub' = Obj /\ ran' = 0 /\ cause' = "running" /\ ended' = FALSE
+             /\ UNCHANGED <<executing, crashed, nCrash, loaded, req, reworked, policy, wasReset, plan, near, maxIter>>
+RCrash == /\ phase = "crashy" /\ Crash /\ ran' = 0
+          /\ UNCHANGED <<plan, near, maxIter, pos, sub, cause, ended, phase, refdb, refcause>>
+\* a new process: the algorithm starts again from its first request
+RRestart(pol) == /\ Restart(pol) /\ pos' = 1 /\ sub' = Obj /\ ran' = 0 /\ cause' = "running" /\ ended' = FALSE
+                 /\ UNCHANGED <<plan, near, maxIter, phase, refdb, refcause>>
+\* the same actions under the names the coverage (vacuity) report needs: the end of a restarted run for
+\* every (termination cause of the uninterrupted run) x (counter policy of the restart), and the crash
+\* points split into the late ones (the file holds all but the last NLast - 1 entries of the
+\* uninterrupted history, or more: the loaded entries alone nearly fill the testers' window) and the others
+FinishRef == phase = "ref" /\ RFinish
+FinishUncrashed == phase = "crashy" /\ policy = "fresh" /\ RFinish
+FinishBudgetReset == phase = "crashy" /\ refcause = "budget" /\ policy = "reset" /\ RFinish
+FinishBudgetKept == phase = "crashy" /\ refcause = "budget" /\ policy = "kept" /\ RFinish
+FinishTolReset == phase = "crashy" /\ refcause = "tol" /\ policy = "reset" /\ RFinish
+FinishTolKept == phase = "crashy" /\ refcause = "tol" /\ policy = "kept" /\ RFinish
+FinishAlgoReset == phase = "crashy" /\ refcause = "algo" /\ policy = "reset" /\ RFinish
+FinishAlgoKept == phase = "crashy" /\ refcause = "algo" /\ policy = "kept" /\ RFinish
+LateFile == Len(file) + NLast > Len(refdb)
+CrashLate == LateFile /\ RCrash
+CrashEarly == ~LateFile /\ RCrash
+RNext == \/ RServe \/ RBudget \/ RExecStart \/ RExecEnd \/ RStore \/ StartOver
+         \/ FinishRef \/ FinishUncrashed
+         \/ FinishBudgetReset \/ FinishBudgetKept \/ FinishTolReset \/ FinishTolKept
+         \/ FinishAlgoReset \/ FinishAlgoKept
+         \/ CrashLate \/ CrashEarly
+         \/ \E pol \in Policies : RRestart(pol)
+RunSpec == RInit /\ [][RNext]_vars
 
 \* ---------------------------------------------------------------- properties
 \* database after the first k stores of the (crash-free part of the) history, de-duplicated:
@@ -95,6 +244,22 @@ IsPrefixDb(a, b) == /\ Len(a) <= Len(b)
                     /\ \A i \in 1..Len(a) : a[i].pt = b[i].pt /\ a[i].outs \subseteq b[i].outs
 LoadedKept == ~crashed => IsPrefixDb(loaded, db)
 MemoryAhead == ~crashed => IsPrefixDb(file, db)
-\* NoRework is an assumption on the environment in this module (ExecStart sets the ghost);
-\* it is the clause BackupTrace checks on recorded restarts
+\* the counter: what the last restart left (the loaded entries under "kept", nothing under "reset")
+\* plus the iterations opened since
+CounterCounts == ~crashed =>
+   counter = CounterAfterLoad(policy, loaded) + NonEmpty(db) - NonEmpty(loaded)
+\* NoRework is an assumption on the environment in layer 1 (ExecStart sets the ghost); it is a theorem
+\* of layer 2 and the clause BackupTrace checks on recorded restarts
+NoRework == ~reworked
+
+\* When stored values are replayed exactly, is the restarted run due to end with the history of the
+\* uninterrupted run?  Yes, except when the uninterrupted run was ended by the budget and a restart
+\* reset the counter (documented: the restarted run gets a fresh budget; the reference history is then
+\* a prefix).  BackupTrace applies the same operator to recorded restarts.
+SameHistoryDue(rc, reset) == ~(rc = "budget" /\ reset)
+EndedAfterCrash == phase = "crashy" /\ ended /\ ~crashed
+SameHistory == (EndedAfterCrash /\ SameHistoryDue(refcause, wasReset)) => (db = refdb /\ cause = refcause)
+RefIsPrefix == EndedAfterCrash => IsPrefixDb(refdb, db)
+\* refuted by TLC (budget x reset), which is why SameHistoryDue has an exception
+SameHistoryAlways == EndedAfterCrash => db = refdb
 =============================================================================
